@@ -3,6 +3,7 @@
 From Coq Require Extraction.
 From Coq Require Import ExtrOcamlBasic.
 From Octo Require Import Base.Bytes Crypto.Prims Lib.Framed Lib.WsFramed Model.PacketWindow Model.Utf8 Model.Address Model.NonceGen Model.SsChunk Model.SsTcp Model.Trojan Model.Socks5 Model.Http Model.Vmess Model.Config.
+From Octo Require Import Model.SsUdp.
 Extraction Language OCaml.
 Extraction "model.ml"
   pw_new pw_validate pw_run spec_run pw_reset
@@ -16,4 +17,5 @@ Extraction "model.ml"
   recognize_http
   body_new encode_payload_v encode_packet_v decode_payload_v decode_packet_v resp_key resp_iv
   server_vdecode server_vencode client_vencode client_vdecode kdf16 auth_id_create seal_header open_header parse_header header_bytes fnv1a32
-  q_cipher q_protocol q_mode q_kind q_object q_kdf q_b64 q_keys q_user q_path q_vmess.
+  q_cipher q_protocol q_mode q_kind q_object q_kdf q_b64 q_keys q_user q_path q_vmess
+  ssu_encode ssu_decode ssu_session_decode cstate_new client_dgram_decode client_dgram_encode astate_new server_assoc_step server_assoc_run associate_key.
